@@ -6,11 +6,11 @@ package zzvf
 
 import (
 	"bytes"
-	"reflect"
 	"encoding/hex"
 	"encoding/json"
 	"fmt"
 	"os"
+	"reflect"
 	"sync"
 )
 
